@@ -12,6 +12,7 @@ func Gen(prop, tier string, seed uint64) *kernel.Plan {
 	g := kernel.NewRng(seed).Derive("plan")
 	kind := []string{"counter", "counter", "map", "list"}[g.Intn(4)]
 	cfg := Config{Kind: kind, Sched: g.U64()}
+	cfg.Realtime = g.Chance(1, 3)
 	nTasks := g.Range(2, 4)
 	maxCalls := 6
 	if tier == "thorough" {
